@@ -192,3 +192,266 @@ package fpgo
 //@   ensures F: !self.isNil && convSupported(self.ref) && !convIsString(self.ref) ==> r1 == nil
 //@   ensures U: !self.isNil && !convSupported(self.ref) ==> r1 == ErrConversionUnsupported
 //@   ensures I: !self.isNil && convSameType(self.ref, r0) ==> r1 == nil
+
+// ===================================================================================================
+// C03 - slice / map helpers equal their definitions (mathematical integers; element type abstract)
+//
+// Conventions: seq-valued results are described index by index; "fresh(r0)" = storage allocated by this call;
+// "unchanged(x)" = the input sequence reads the same afterwards. Callbacks are pure functions.
+
+//@ func Map
+//@   prop C03
+//@   ensures len: len(r0) == len(values)
+//@   ensures elems: forall(i, 0, len(values), r0[i] == fn(values[i]))
+//@   ensures fresh: fresh(r0)
+//@   ensures unchanged: unchanged(values)
+//@ func Map loop 0
+//@   invariant len: len(result) == len(values)
+//@   invariant fresh: fresh(result)
+//@   invariant prefix: forall(j, 0, _i, result[j] == fn(values[j]))
+
+//@ func MapIndexed
+//@   prop C03
+//@   ensures len: len(r0) == len(values)
+//@   ensures elems: forall(i, 0, len(values), r0[i] == fn(values[i], i))
+//@   ensures fresh: fresh(r0)
+//@   ensures unchanged: unchanged(values)
+//@ func MapIndexed loop 0
+//@   invariant len: len(result) == len(values)
+//@   invariant fresh: fresh(result)
+//@   invariant prefix: forall(j, 0, _i, result[j] == fn(values[j], j))
+
+//@ func Reverse
+//@   prop C03
+//@   ensures len: len(r0) == len(list)
+//@   ensures elems: forall(i, 0, len(list), r0[i] == list[len(list)-1-i])
+//@   ensures fresh: fresh(r0)
+//@   ensures unchanged: unchanged(list)
+//@ func Reverse loop 0
+//@   invariant range: 0 <= i && i <= len(list)
+//@   invariant len: len(newList) == len(list)
+//@   invariant fresh: fresh(newList)
+//@   invariant prefix: forall(j, 0, i, newList[j] == list[len(list)-1-j])
+
+//@ func Drop
+//@   prop C03
+//@   ensures none: count <= 0 ==> r0 == list
+//@   ensures all: count >= len(list) && count > 0 ==> len(r0) == 0
+//@   ensures some: count > 0 && count < len(list) ==> len(r0) == len(list) - count && forall(i, 0, len(r0), r0[i] == list[count+i])
+//@   ensures unchanged: unchanged(list)
+
+//@ func DropLast
+//@   prop C03
+//@   ensures none: count <= 0 ==> r0 == list
+//@   ensures all: count >= len(list) && count > 0 ==> len(r0) == 0
+//@   ensures some: count > 0 && count < len(list) ==> len(r0) == len(list) - count && forall(i, 0, len(r0), r0[i] == list[i])
+//@   ensures unchanged: unchanged(list)
+
+//@ func Take
+//@   prop C03
+//@   ensures some: count > 0 && count < len(list) ==> len(r0) == count && forall(i, 0, count, r0[i] == list[i])
+//@   ensures all: count >= len(list) ==> r0 == list
+//@   ensures corner: count <= 0 ==> r0 == list || len(r0) == 0
+//@   ensures unchanged: unchanged(list)
+
+//@ func TakeLast
+//@   prop C03
+//@   ensures some: count > 0 && count < len(list) ==> len(r0) == count && forall(i, 0, count, r0[i] == list[len(list)-count+i])
+//@   ensures all: count >= len(list) ==> r0 == list
+//@   ensures corner: count <= 0 ==> r0 == list || len(r0) == 0
+//@   ensures unchanged: unchanged(list)
+
+//@ func Head
+//@   prop C03
+//@   ensures some: len(list) > 0 ==> r0 == list[0]
+//@   ensures unchanged: unchanged(list)
+
+//@ func Tail
+//@   prop C03
+//@   ensures empty: len(list) <= 1 ==> len(r0) == 0
+//@   ensures some: len(list) > 1 ==> len(r0) == len(list) - 1 && forall(i, 0, len(r0), r0[i] == list[i+1])
+//@   ensures unchanged: unchanged(list)
+
+// Filter-like results are characterised by two ghost index maps (existential witnesses):
+//   g[j]   = index in the input of the j-th element of the result (strictly increasing),
+//   pos[k] = position in the result of input element k, for every k that is kept.
+// Together the three clauses sub/mono/all determine the result uniquely: it is the subsequence of exactly the kept elements, in order.
+
+//@ func Filter
+//@   prop C03
+//@   ghost g (Array Int Int)
+//@   ghost pos (Array Int Int)
+//@   ensures sub: forall(j, 0, len(r0), 0 <= g[j] && g[j] < len(input) && r0[j] == input[g[j]] && fn(input[g[j]], g[j]))
+//@   ensures mono: forall(j, 0, len(r0), forall(l, 0, j, g[l] < g[j]))
+//@   ensures all: forall(k, 0, len(input), fn(input[k], k) ==> 0 <= pos[k] && pos[k] < len(r0) && g[pos[k]] == k)
+//@   ensures fresh: fresh(r0)
+//@   ensures unchanged: unchanged(input)
+//@ func Filter loop 0
+//@   ghostset g = ite(fn(input[_i], _i), store(g, newLen-1, _i), g)
+//@   ghostset pos = ite(fn(input[_i], _i), store(pos, _i, newLen-1), pos)
+//@   invariant n: 0 <= newLen && newLen <= _i
+//@   invariant len: len(list) == len(input) && fresh(list)
+//@   invariant sub: forall(j, 0, newLen, 0 <= g[j] && g[j] < _i && list[j] == input[g[j]] && fn(input[g[j]], g[j]))
+//@   invariant mono: forall(j, 0, newLen, forall(l, 0, j, g[l] < g[j]))
+//@   invariant all: forall(k, 0, _i, fn(input[k], k) ==> 0 <= pos[k] && pos[k] < newLen && g[pos[k]] == k)
+
+// Reduce: the ghost sequence m of intermediate accumulators witnesses the left fold.
+//@ func Reduce
+//@   prop C03
+//@   ghost m (Array Int Val)
+//@   ghostinit m = store(m, 0, memo)
+//@   ensures fold: m[0] == old(memo) && forall(k, 0, len(input), m[k+1] == fn(m[k], input[k])) && r0 == m[len(input)]
+//@   ensures unchanged: unchanged(input)
+//@ func Reduce loop 0
+//@   ghostset m = store(m, i+1, memo)
+//@   invariant range: 0 <= i && i <= len(input)
+//@   invariant acc: m[0] == old(memo) && memo == m[i]
+//@   invariant steps: forall(k, 0, i, m[k+1] == fn(m[k], input[k]))
+
+//@ func ReduceIndexed
+//@   prop C03
+//@   ghost m (Array Int Val)
+//@   ghostinit m = store(m, 0, memo)
+//@   ensures fold: m[0] == old(memo) && forall(k, 0, len(input), m[k+1] == fn(m[k], input[k], k)) && r0 == m[len(input)]
+//@   ensures unchanged: unchanged(input)
+//@ func ReduceIndexed loop 0
+//@   ghostset m = store(m, i+1, memo)
+//@   invariant range: 0 <= i && i <= len(input)
+//@   invariant acc: m[0] == old(memo) && memo == m[i]
+//@   invariant steps: forall(k, 0, i, m[k+1] == fn(m[k], input[k], k))
+
+//@ func Reject
+//@   prop C03
+//@   ghost g (Array Int Int)
+//@   ghost pos (Array Int Int)
+//@   ghostset g = Filter_g
+//@   ghostset pos = Filter_pos
+//@   ensures sub: forall(j, 0, len(r0), 0 <= g[j] && g[j] < len(input) && r0[j] == input[g[j]] && !fn(input[g[j]], g[j]))
+//@   ensures mono: forall(j, 0, len(r0), forall(l, 0, j, g[l] < g[j]))
+//@   ensures all: forall(k, 0, len(input), !fn(input[k], k) ==> 0 <= pos[k] && pos[k] < len(r0) && g[pos[k]] == k)
+//@   ensures fresh: fresh(r0)
+//@   ensures unchanged: unchanged(input)
+
+//@ func Exists
+//@   prop C03
+//@   ensures def: r0 == exists(i, 0, len(list), list[i] == input)
+//@   ensures unchanged: unchanged(list)
+//@ func Exists loop 0
+//@   invariant none: forall(j, 0, _i, list[j] != input)
+
+//@ func Every
+//@   prop C03
+//@   ensures def: r0 == (f != nil && len(list) > 0 && forall(i, 0, len(list), f(list[i])))
+//@   ensures unchanged: unchanged(list)
+//@ func Every loop 0
+//@   invariant all: forall(j, 0, _i, f(list[j]))
+
+//@ func Some
+//@   prop C03
+//@   ensures def: r0 == (f != nil && exists(i, 0, len(list), f(list[i])))
+//@   ensures unchanged: unchanged(list)
+//@ func Some loop 0
+//@   invariant none: forall(j, 0, _i, !f(list[j]))
+
+//@ func IsEqual
+//@   prop C03
+//@   ensures def: len(list1) > 0 || len(list2) > 0 ==> r0 == (len(list1) == len(list2) && forall(i, 0, len(list1), list1[i] == list2[i]))
+//@   ensures unchanged: unchanged(list1) && unchanged(list2)
+//@ func IsEqual loop 0
+//@   invariant range: 0 <= i && i <= len1
+//@   invariant same: forall(j, 0, i, list1[j] == list2[j])
+
+//@ func Min
+//@   prop C03
+//@   ensures empty: len(list) == 0 ==> r0 == 0
+//@   ensures member: len(list) > 0 ==> exists(i, 0, len(list), list[i] == r0)
+//@   ensures bound: forall(i, 0, len(list), r0 <= list[i])
+//@   ensures unchanged: unchanged(list)
+//@ func Min loop 0
+//@   invariant member: exists(j, 0, len(list), list[j] == result)
+//@   invariant bound: forall(j, 0, _i, result <= list[j])
+
+//@ func Max
+//@   prop C03
+//@   ensures empty: len(list) == 0 ==> r0 == 0
+//@   ensures member: len(list) > 0 ==> exists(i, 0, len(list), list[i] == r0)
+//@   ensures bound: forall(i, 0, len(list), r0 >= list[i])
+//@   ensures unchanged: unchanged(list)
+//@ func Max loop 0
+//@   invariant member: exists(j, 0, len(list), list[j] == result)
+//@   invariant bound: forall(j, 0, _i, result >= list[j])
+
+//@ func MinMax
+//@   prop C03
+//@   ensures empty: len(list) == 0 ==> r0 == 0 && r1 == 0
+//@   ensures member: len(list) > 0 ==> exists(i, 0, len(list), list[i] == r0) && exists(i, 0, len(list), list[i] == r1)
+//@   ensures bound: forall(i, 0, len(list), r0 <= list[i] && list[i] <= r1)
+//@   ensures unchanged: unchanged(list)
+//@ func MinMax loop 0
+//@   invariant member: exists(j, 0, len(list), list[j] == min) && exists(j, 0, len(list), list[j] == max)
+//@   invariant bound: forall(j, 0, _i, min <= list[j] && list[j] <= max)
+//@   invariant order: min <= max
+
+//@ func DropEq
+//@   prop C03
+//@   ghost g (Array Int Int)
+//@   ghost pos (Array Int Int)
+//@   ensures sub: forall(j, 0, len(r0), 0 <= g[j] && g[j] < len(list) && r0[j] == list[g[j]] && list[g[j]] != num)
+//@   ensures mono: forall(j, 0, len(r0), forall(l, 0, j, g[l] < g[j]))
+//@   ensures all: forall(k, 0, len(list), list[k] != num ==> 0 <= pos[k] && pos[k] < len(r0) && g[pos[k]] == k)
+//@   ensures fresh: freshOrNil(r0)
+//@   ensures unchanged: unchanged(list)
+//@ func DropEq loop 0
+//@   ghostset g = ite(list[_i] != num, store(g, len(newList)-1, _i), g)
+//@   ghostset pos = ite(list[_i] != num, store(pos, _i, len(newList)-1), pos)
+//@   invariant n: len(newList) <= _i && freshOrNil(newList)
+//@   invariant sub: forall(j, 0, len(newList), 0 <= g[j] && g[j] < _i && newList[j] == list[g[j]] && list[g[j]] != num)
+//@   invariant mono: forall(j, 0, len(newList), forall(l, 0, j, g[l] < g[j]))
+//@   invariant all: forall(k, 0, _i, list[k] != num ==> 0 <= pos[k] && pos[k] < len(newList) && g[pos[k]] == k)
+
+//@ func Dedupe
+//@   prop C03
+//@   ghost g (Array Int Int)
+//@   ghost pos (Array Int Int)
+//@   ensures sub: forall(j, 0, len(r0), 0 <= g[j] && g[j] < len(list) && r0[j] == list[g[j]] && !(g[j]+1 < len(list) && list[g[j]] == list[g[j]+1]))
+//@   ensures mono: forall(j, 0, len(r0), forall(l, 0, j, g[l] < g[j]))
+//@   ensures all: forall(k, 0, len(list), !(k+1 < len(list) && list[k] == list[k+1]) ==> 0 <= pos[k] && pos[k] < len(r0) && g[pos[k]] == k)
+//@   ensures fresh: freshOrNil(r0)
+//@   ensures unchanged: unchanged(list)
+//@ func Dedupe loop 0
+//@   ghostset g = ite(!(i+1 < lenList && list[i] == list[i+1]), store(g, len(newList)-1, i), g)
+//@   ghostset pos = ite(!(i+1 < lenList && list[i] == list[i+1]), store(pos, i, len(newList)-1), pos)
+//@   invariant range: 0 <= i && i <= lenList && lenList == len(list)
+//@   invariant n: len(newList) <= i && freshOrNil(newList)
+//@   invariant sub: forall(j, 0, len(newList), 0 <= g[j] && g[j] < i && newList[j] == list[g[j]] && !(g[j]+1 < len(list) && list[g[j]] == list[g[j]+1]))
+//@   invariant mono: forall(j, 0, len(newList), forall(l, 0, j, g[l] < g[j]))
+//@   invariant all: forall(k, 0, i, !(k+1 < len(list) && list[k] == list[k+1]) ==> 0 <= pos[k] && pos[k] < len(newList) && g[pos[k]] == k)
+
+//@ func DropWhile
+//@   prop C03
+//@   ensures nilf: f == nil ==> len(r0) == 0
+//@   ensures cut: f != nil ==> len(r0) <= len(list) && forall(j, 0, len(list)-len(r0), f(list[j])) && (len(r0) > 0 ==> !f(list[len(list)-len(r0)]))
+//@   ensures suffix: f != nil ==> forall(j, 0, len(r0), r0[j] == list[len(list)-len(r0)+j])
+//@   ensures fresh: freshOrNil(r0)
+//@   ensures unchanged: unchanged(list)
+//@ func DropWhile loop 0
+//@   invariant prefix: forall(j, 0, _i, f(list[j]))
+//@   invariant nothing: len(newList) == 0 && newList == nil
+//@ func DropWhile loop 1
+//@   invariant shape: 0 <= j && j <= len(newList) && len(newList) <= listLen && listLen == len(list) && i == listLen - len(newList) + j && fresh(newList) && len(newList) > 0
+//@   invariant prefix: forall(l, 0, listLen - len(newList), f(list[l])) && !f(list[listLen - len(newList)])
+//@   invariant copied: forall(l, 0, j, newList[l] == list[listLen - len(newList) + l])
+
+//@ func Prepend
+//@   prop C03
+//@   ensures len: len(r0) == len(list) + 1
+//@   ensures head: r0[0] == element
+//@   ensures tail: forall(i, 0, len(list), r0[i+1] == list[i])
+//@   ensures fresh: fresh(r0)
+//@   ensures unchanged: unchanged(list)
+
+//@ func DuplicateSlice
+//@   prop C03
+//@   ensures same: seqeq(r0, list)
+//@   ensures fresh: fresh(r0)
+//@   ensures unchanged: unchanged(list)
